@@ -27,14 +27,15 @@ import (
 
 // Case is one input of the box-layer properties.
 type Case struct {
-	Seed  string           `json:"seed"`           // name in the seed pool ("" = Data)
-	Box   int              `json:"box"`            // box level: index (depth-first) of the box of the seed to take; -1 = whole seed
-	Muts  []boxmut.Mut     `json:"muts,omitempty"` // mutation recipe (applied to the extracted box / the file)
-	Data  harness.HexBytes `json:"data,omitempty"` // explicit bytes (filled in for reports)
-	Level string           `json:"level"`          // "box" | "file"
-	Path  string           `json:"path"`           // "reader" | "sr"
-	Opt   bool             `json:"opt,omitempty"`  // C02/C03: encode with OptimizeTrun
-	Info  bool             `json:"info,omitempty"` // C02: call Info between encodes
+	Seed    string           `json:"seed"`              // name in the seed pool ("" = Data)
+	Box     int              `json:"box"`               // box level: index (depth-first) of the box of the seed to take; -1 = whole seed
+	Muts    []boxmut.Mut     `json:"muts,omitempty"`    // mutation recipe (applied to the extracted box / the file)
+	Data    harness.HexBytes `json:"data,omitempty"`    // explicit bytes (filled in for reports)
+	Level   string           `json:"level"`             // "box" | "file"
+	Path    string           `json:"path"`              // "reader" | "sr"
+	Opt     bool             `json:"opt,omitempty"`     // C02/C03: encode with OptimizeTrun
+	Info    bool             `json:"info,omitempty"`    // C02: call Info between encodes
+	SWFirst bool             `json:"swfirst,omitempty"` // C02: the first encoding of each structure goes through EncodeSW
 }
 
 // Bytes materialises the input.
@@ -83,6 +84,7 @@ func Gen(t *rapid.T, cfg GenConfig) Case {
 	c.Path = rapid.SampledFrom([]string{"reader", "sr"}).Draw(t, "path")
 	c.Opt = rapid.IntRange(0, 3).Draw(t, "opt") == 0
 	c.Info = rapid.Bool().Draw(t, "info")
+	c.SWFirst = rapid.Bool().Draw(t, "swfirst")
 	if c.Level == "box" {
 		c.Box = rapid.IntRange(0, 600).Draw(t, "box")
 	}
